@@ -510,6 +510,10 @@ class spawn(SpawnBase):
             # Some platforms, such as Irix, will claim that their
             # processes are alive; timeout on the select; and
             # then finally admit that they are not alive.
+            # The child may have written its last output after the wait
+            # expired and before it died: look once more, as above.
+            if select(0):
+                return super(spawn, self).read_nonblocking(size)
             self.flag_eof = True
             raise EOF('End of File (EOF). Very slow platform.')
         else:
